@@ -149,6 +149,16 @@ def execAllowed (cfg : Config) (r : Reach) : Bool :=
   | some n => n.verdict == .exec
   | none => false
 
+/-- what the model says the plugin does for an option value: the parse result, and — through the
+    rows probed with the Python booleans — what happens to file and string templates -/
+def modelRow (p : Plugin) (o : Opt) : Option PluginRow :=
+  match parseOpt o with
+  | .allow => pluginByFlag p true
+  | .deny => pluginByFlag p false
+  | .confError => some ⟨.confError, .failed, none, none, .failed, none, none⟩
+  | .failed => none
+
+
 /-! ### specification side -/
 
 /-- all letter-case variants of a lower-case word -/
